@@ -41,7 +41,7 @@ def gen_data(rng):
                     for _ in range(rng.choice([1, 1, 2, 3, 5]))]
             decls.append((nm, ty, vals))
         elif k < 0.8:
-            s = rng.choice(["Hello, World!", "a", "", "x y", "tab\\tq", "it's", "üé", "A" * rng.randrange(1, 9), "q\\\"w"])
+            s = rng.choice(["Hello, World!", "a", "", "x y", "tab\\tq", "it's", "üé", "A" * rng.randrange(1, 9), "q\\\"w", "a\tb", "\t", "x \t\ty"])   # incl. real tab characters
             decls.append((nm, "string", s))
         else:
             decls.append((nm, "zero", rng.choice([0, 1, 2, 3, 64, 500, 600, 1000])))     # large areas push later variables past 2 KiB (lui carry)
